@@ -12,6 +12,7 @@ CONSTANTS Comp = "pairs"
   NBuf = 2
   Gaps <- G_31
   Strict = FALSE
+  Busy = FALSE
   D = 0
 INIT TrInit
 NEXT TrNext
